@@ -1757,6 +1757,45 @@ impl<K: Hash + Eq, V, RH: BuildHasher, REH: BuildHasher, FH: BuildHasher, FEH: B
     }
 }
 
+// ---------------------------------------------------------------------------
+// Verification hooks (cargo feature `verif-hooks`, off by default).
+// ---------------------------------------------------------------------------
+#[cfg(feature = "verif-hooks")]
+impl<K: Hash + Eq, V, RH: BuildHasher, REH: BuildHasher, FH: BuildHasher, FEH: BuildHasher>
+    AdaptiveCache<K, V, RH, REH, FH, FEH>
+{
+    /// Read-only view of `(recent, frequent, recent_evict, frequent_evict)`.
+    #[doc(hidden)]
+    #[allow(clippy::type_complexity)]
+    pub fn verif_lists(
+        &self,
+    ) -> (
+        &RawLRU<K, V, DefaultEvictCallback, RH>,
+        &RawLRU<K, V, DefaultEvictCallback, FH>,
+        &RawLRU<K, V, DefaultEvictCallback, REH>,
+        &RawLRU<K, V, DefaultEvictCallback, FEH>,
+    ) {
+        (
+            &self.recent,
+            &self.frequent,
+            &self.recent_evict,
+            &self.frequent_evict,
+        )
+    }
+
+    /// Forces a re-hash of the index of list `which`
+    /// (0 = recent, 1 = frequent, 2 = recent_evict, 3 = frequent_evict).
+    #[doc(hidden)]
+    pub fn verif_rehash(&mut self, which: usize) {
+        match which {
+            0 => self.recent.verif_rehash(),
+            1 => self.frequent.verif_rehash(),
+            2 => self.recent_evict.verif_rehash(),
+            _ => self.frequent_evict.verif_rehash(),
+        }
+    }
+}
+
 #[cfg(test)]
 mod test {
     use crate::{AdaptiveCache, Cache};
